@@ -46,15 +46,44 @@ type c17Manifest struct {
 }
 
 type c17Emb struct {
-	Kind  string    `json:"kind"`
-	Extra W         `json:"extra"`
-	Text  []c17Item `json:"text"` // other string items (props mode: the properties themselves)
-	Bin   []c17Bin  `json:"bin"`
-	Mode  string    `json:"mode"` // yaml | json | props
-	Item  string    `json:"item"`
-	Doc   W         `json:"doc"` // initial embedded document; nil: item absent (yaml/json)
-	Via   string    `json:"via"` // open | create
-	Edits []domEdit `json:"edits"`
+	Kind  string      `json:"kind"`
+	Extra W           `json:"extra"`
+	Text  []c17Item   `json:"text"` // other string items (props mode: the properties themselves)
+	Bin   []c17Bin    `json:"bin"`
+	Mode  string      `json:"mode"` // yaml | json | props
+	Item  string      `json:"item"`
+	Doc   W           `json:"doc"` // initial embedded document; nil: item absent (yaml/json)
+	Via   string      `json:"via"` // open | builder | create
+	Edits []domEdit   `json:"edits"`
+	More  [][]domEdit `json:"more,omitempty"` // later rounds (edits, Save, reopen-compare) through the SAME Document handle
+	By    *c17Party   `json:"by,omitempty"`   // another manifest alive during the whole history, written + reloaded after every Save
+}
+
+// c17Party: one of several manifests alive at the same time.
+type c17Party struct {
+	ID       string    `json:"id"`
+	Kind     string    `json:"kind"`
+	Extra    W         `json:"extra"`
+	Text     []c17Item `json:"text"`
+	Bin      []c17Bin  `json:"bin"`
+	EmptySec bool      `json:"emptySec"`
+	Via      string    `json:"via"` // bytes | reader | file
+}
+
+type c17Step struct {
+	M   string `json:"m"`  // party id
+	Op  string `json:"op"` // load | write | supdate | sremove | bupdate | bremove
+	Key string `json:"key,omitempty"`
+	S   string `json:"s,omitempty"`
+	B   []int  `json:"b,omitempty"`
+}
+
+// c17Inter: an interleaving of the histories of several manifests.  A party is loaded by the first step that
+// names it; "write" = WriteTo + reload + compare with the party's OWN expected items and sections; after the
+// last step every party is (loaded and) written once more, in the order of Ms.
+type c17Inter struct {
+	Ms    []c17Party `json:"ms"`
+	Steps []c17Step  `json:"steps"`
 }
 
 type c17Malformed struct {
@@ -68,14 +97,31 @@ type c17B64 struct {
 
 func init() {
 	register(&Prop{ID: "C17", Run: c17Run,
-		Rule: "manifest: Secret/ConfigMap with generated metadata/extra fields (incl. the other kind's section names), 0-5 text items (strings: multi-line, unicode, numeric-looking, YAML-special; and non-string scalars) and 0-4 binary items (0-40 arbitrary bytes, incl. empty), serialised with yaml.v3, loaded through ManifestFromBytes/Reader/File, written, reloaded, then 0-8 Update/Remove edits on both facades, written and reloaded again. embedded: a YAML/JSON document embedded in an item (or absent), or properties spread over the string items, opened through k8s.YamlDoc/JsonDoc/Properties or NewBuilder().Create on a temp file, 0-6 AddValueAt/RemoveAt edits, Save, reopened. malformed: YAML assembled from pools of bad kinds / sections / values. b64: random bytes and mutated encodings against encoding/base64. A manifest case is non-trivial when it has at least one item; an embedded case when it has at least one edit; distinct = distinct canonical case JSON.",
+		Rule: "manifest: Secret/ConfigMap with generated metadata/extra fields (incl. the other kind's section names), 0-5 text items (strings: multi-line, unicode, numeric-looking, YAML-special; and non-string scalars) and 0-4 binary items (0-40 arbitrary bytes, incl. empty), serialised with yaml.v3, loaded through ManifestFromBytes/Reader/File, written, reloaded, then 0-8 Update/Remove edits on both facades, written and reloaded again. embedded: a YAML/JSON document embedded in an item (or absent), or properties spread over the string items, opened through k8s.YamlDoc/JsonDoc/Properties or NewBuilder()...Open()/Create() on a temp file, then 1-4 rounds of (0-6 AddValueAt/RemoveAt edits, Save through the SAME Document handle, reopen and compare), in a third of the cases with a second manifest of either kind alive that is written and reloaded after every Save. interleave: 2-3 manifests of either kind alive at once, a random schedule of load / Update / Remove / write(+reload) steps over them, every write compared with that manifest's own expected items, sections and non-data fields, every step followed by a look at the items of all alive manifests. malformed: YAML assembled from pools of bad kinds / sections / values. b64: random bytes and mutated encodings against encoding/base64. A manifest case is non-trivial when it has at least one item; an embedded case when it has at least one edit; an interleave case when two manifests with at least one item between them are alive at a write; distinct = distinct canonical case JSON.",
 		Assumptions: []string{
 			"yaml.v3 round-trips the generated manifest bodies (strings are pre-filtered by an independent Marshal/Unmarshal round trip; no timestamps, no NaN)",
 			"embedded YAML documents hold int/string/bool/null scalars, embedded JSON documents string/bool/float64/null scalars (the codecs' number normalisation is C01's concern); keys are path-safe",
 			"embedded properties are compared as flattened key/value maps with values stringified by %v (what a properties file can hold)",
 			"the model's embedded text codec is the finite table of (document, text) pairs observed on the implementation"}})
 	evals["C17"] = c17Eval
-	shrinkers["C17"] = shrinkJSON
+	shrinkers["C17"] = c17Shrink
+}
+
+// c17Shrink: the generic JSON shrinker, preceded (embedded cases) by the case without the second manifest.
+func c17Shrink(kind string, raw []byte) [][]byte {
+	var out [][]byte
+	if kind == "embedded" {
+		var m map[string]json.RawMessage
+		if err := json.Unmarshal(raw, &m); err == nil {
+			if _, ok := m["by"]; ok {
+				delete(m, "by")
+				if b, err := json.Marshal(m); err == nil {
+					out = append(out, b)
+				}
+			}
+		}
+	}
+	return append(out, shrinkJSON(kind, raw)...)
 }
 
 var c17Keys = []string{"a", "b", "key-1", "K_2", "app.properties", "x.yaml", "cfg.json", "z"}
@@ -251,6 +297,10 @@ func c17Run(c *Ctx) {
 		c.Tick()
 		c.Do("embedded", c17GenEmb(r))
 	}
+	for i := 0; i < c.N(1200); i++ {
+		c.Tick()
+		c.Do("interleave", c17GenInter(r))
+	}
 	for _, y := range c17MalformedFixed {
 		c.Do("malformed", c17Malformed{Yaml: y})
 	}
@@ -302,9 +352,12 @@ func c17GenEmb(r *rand.Rand) c17Emb {
 			cs.Doc = g.Doc(r)
 		}
 	}
-	if r.Intn(6) == 0 {
+	switch r.Intn(6) {
+	case 0:
 		cs.Via = "create"
 		cs.Extra, cs.Text, cs.Bin, cs.Doc = map[string]any{"m": map[string]any{}}, []c17Item{}, []c17Bin{}, nil
+	case 1:
+		cs.Via = "builder"
 	}
 	// edits aimed at the current shape of the document
 	var cur W = cs.Doc
@@ -318,33 +371,81 @@ func c17GenEmb(r *rand.Rand) c17Emb {
 			cur = map[string]any{"m": m}
 		}
 	}
-	n := r.Intn(7)
 	var paths, lists []string
 	wirePaths(cur, "", &paths, &lists)
-	for i := 0; i < n; i++ {
-		p := pick(r, g.Keys)
-		if len(paths) > 0 && r.Intn(3) > 0 {
-			p = pick(r, paths)
-			if r.Intn(3) == 0 {
+	genRound := func(n int) []domEdit {
+		out := []domEdit{}
+		for i := 0; i < n; i++ {
+			p := pick(r, g.Keys)
+			if len(paths) > 0 && r.Intn(3) > 0 {
+				p = pick(r, paths)
+				if r.Intn(3) == 0 {
+					p = p + "." + pick(r, g.Keys)
+				}
+			} else if r.Intn(2) == 0 {
 				p = p + "." + pick(r, g.Keys)
 			}
-		} else if r.Intn(2) == 0 {
-			p = p + "." + pick(r, g.Keys)
-		}
-		if mode == "props" && r.Intn(2) == 0 {
-			p = pick(r, c17PropKeys)
-		}
-		if r.Intn(3) == 0 {
-			cs.Edits = append(cs.Edits, domEdit{Op: "removeat", Path: p})
-		} else {
-			var v W
-			if r.Intn(3) == 0 {
-				v = g.Node(r, g.MaxDepth-1)
-			} else {
-				v = g.Scalar(r)
+			if mode == "props" && r.Intn(2) == 0 {
+				p = pick(r, c17PropKeys)
 			}
-			cs.Edits = append(cs.Edits, domEdit{Op: "addat", Path: p, V: v})
-			paths = append(paths, p)
+			if r.Intn(3) == 0 {
+				out = append(out, domEdit{Op: "removeat", Path: p})
+			} else {
+				var v W
+				if r.Intn(3) == 0 {
+					v = g.Node(r, g.MaxDepth-1)
+				} else {
+					v = g.Scalar(r)
+				}
+				out = append(out, domEdit{Op: "addat", Path: p, V: v})
+				paths = append(paths, p)
+			}
+		}
+		return out
+	}
+	cs.Edits = genRound(r.Intn(7))
+	// history: the same handle is edited and saved again
+	for i := pick(r, []int{0, 0, 1, 1, 2, 3}); i > 0; i-- {
+		cs.More = append(cs.More, genRound(r.Intn(5)))
+	}
+	if r.Intn(3) == 0 {
+		p := c17GenParty(r, "other")
+		cs.By = &p
+	}
+	return cs
+}
+
+func c17GenParty(r *rand.Rand, id string) c17Party {
+	kind := pick(r, []string{"Secret", "ConfigMap"})
+	return c17Party{ID: id, Kind: kind, Extra: c17GenExtra(r, kind), Text: c17GenItems(r, c17Keys, 4, false), Bin: c17GenBins(r, 3),
+		EmptySec: r.Intn(8) == 0, Via: pick(r, []string{"bytes", "bytes", "reader", "file"})}
+}
+
+func c17GenInter(r *rand.Rand) c17Inter {
+	n := 2 + r.Intn(2)
+	cs := c17Inter{Ms: []c17Party{}, Steps: []c17Step{}}
+	ids := []string{}
+	for i := 0; i < n; i++ {
+		id := fmt.Sprintf("m%d", i)
+		ids = append(ids, id)
+		cs.Ms = append(cs.Ms, c17GenParty(r, id))
+	}
+	// some (often all) parties are loaded up front, in any order
+	for _, i := range r.Perm(n)[:1+r.Intn(n)] {
+		if r.Intn(4) > 0 {
+			cs.Steps = append(cs.Steps, c17Step{M: ids[i], Op: "load"})
+		}
+	}
+	for k := r.Intn(13); k > 0; k-- {
+		id := pick(r, ids)
+		switch r.Intn(10) {
+		case 0:
+			cs.Steps = append(cs.Steps, c17Step{M: id, Op: "load"})
+		case 1, 2, 3:
+			cs.Steps = append(cs.Steps, c17Step{M: id, Op: "write"})
+		default:
+			e := c17GenEdits(r, 1)[0]
+			cs.Steps = append(cs.Steps, c17Step{M: id, Op: e.Op, Key: e.Key, S: e.S, B: e.B})
 		}
 	}
 	return cs
@@ -503,12 +604,62 @@ func c17WorkDir(c *Ctx) string {
 	return d
 }
 
+// c17CheckLoaded: the items a freshly loaded manifest shows are the generated ones.
+func c17CheckLoaded(c *Ctx, text []c17Item, bin []c17Bin, loaded c17Items) {
+	for _, it := range text {
+		want := fmt.Sprintf("%v", wirePlain(it.V))
+		got, ok := loaded.Str[it.K]
+		c.Direct("text-item-loaded-as-text", ok && got == want, map[string]any{"key": it.K, "got": got, "want": want})
+	}
+	c.Direct("text-item-keys", len(loaded.Str) == len(text) && len(loaded.StrList) == len(text), loaded.StrList)
+	for _, it := range bin {
+		got, ok := loaded.Bin[it.K]
+		c.Direct("binary-item-byte-exact", ok && canon(got) == canon(append([]int{}, it.B...)), map[string]any{"key": it.K, "got": got, "want": it.B})
+	}
+	c.Direct("binary-item-keys", len(loaded.Bin) == len(bin), loaded.BinList)
+}
+
+// c17CheckWritten: a written body is YAML, keeps the fields outside the data sections, and holds the binary
+// items base64-encoded in the section the kind prescribes and the text items as strings in theirs (a section
+// is absent when it has no items).  Returns the decoded body (nil when it is not YAML).
+func c17CheckWritten(c *Ctx, kind string, orig W, b []byte, items c17Items, write any) W {
+	bk, tk := c17SectionKeys(kind)
+	w, err := c17Decode(b)
+	if !c.Direct("written-body-is-yaml", err == nil, fmt.Sprint(err)) {
+		return nil
+	}
+	c.Direct("non-data-fields-preserved", canon(c17NonData(w, kind)) == canon(c17NonData(orig, kind)),
+		map[string]any{"write": write, "got": c17NonData(w, kind), "want": c17NonData(orig, kind)})
+	wm, _ := wireCont(w)
+	wantB := map[string]any{}
+	for k, v := range items.Bin {
+		wantB[k] = scalarWire(base64.StdEncoding.EncodeToString(c17ToBytes(v)))
+	}
+	wantT := map[string]any{}
+	for k, v := range items.Str {
+		wantT[k] = scalarWire(v)
+	}
+	checkSec := func(key string, want map[string]any, clause string) {
+		got, present := wm[key]
+		if len(want) == 0 {
+			c.Direct(clause+"(absent-when-empty)", !present, map[string]any{"write": write, "section": key, "got": got})
+			return
+		}
+		c.Direct(clause, present && canon(got) == canon(map[string]any{"m": want}), map[string]any{"write": write, "section": key, "got": got, "want": want})
+	}
+	checkSec(bk, wantB, "binary-section-is-base64-of-items")
+	checkSec(tk, wantT, "text-section-is-items")
+	return w
+}
+
 func c17Eval(c *Ctx, kind string, raw []byte) {
 	switch kind {
 	case "manifest":
 		c17EvalManifest(c, raw)
 	case "embedded":
 		c17EvalEmbedded(c, raw)
+	case "interleave":
+		c17EvalInter(c, raw)
 	case "malformed":
 		c17EvalMalformed(c, raw)
 	case "b64":
@@ -536,8 +687,6 @@ func c17EvalManifest(c *Ctx, raw []byte) {
 	c.Dist(fmt.Sprintf("text-items:%d", len(cs.Text)))
 	c.Dist(fmt.Sprintf("bin-items:%d", len(cs.Bin)))
 	c.Dist("via:" + cs.Via)
-	bk, tk := c17SectionKeys(cs.Kind)
-
 	var m k8s.Manifest
 	var loadErr error
 	dir := ""
@@ -571,17 +720,7 @@ func c17EvalManifest(c *Ctx, raw []byte) {
 	out, txt = guard(func() {
 		loaded = c17Observe(m)
 		// ---- items as generated
-		for _, it := range cs.Text {
-			want := fmt.Sprintf("%v", wirePlain(it.V))
-			got, ok := loaded.Str[it.K]
-			c.Direct("text-item-loaded-as-text", ok && got == want, map[string]any{"key": it.K, "got": got, "want": want})
-		}
-		c.Direct("text-item-keys", len(loaded.Str) == len(cs.Text) && len(loaded.StrList) == len(cs.Text), loaded.StrList)
-		for _, it := range cs.Bin {
-			got, ok := loaded.Bin[it.K]
-			c.Direct("binary-item-byte-exact", ok && canon(got) == canon(append([]int{}, it.B...)), map[string]any{"key": it.K, "got": got, "want": it.B})
-		}
-		c.Direct("binary-item-keys", len(loaded.Bin) == len(cs.Bin), loaded.BinList)
+		c17CheckLoaded(c, cs.Text, cs.Bin, loaded)
 		// ---- write + reload, no edits
 		var buf bytes.Buffer
 		n, werr := m.WriteTo(&buf)
@@ -644,41 +783,16 @@ func c17EvalManifest(c *Ctx, raw []byte) {
 		if b == nil {
 			continue
 		}
-		w, err := c17Decode(b)
-		if !c.Direct("written-body-is-yaml", err == nil, fmt.Sprint(err)) {
-			continue
+		items := loaded
+		if i == 1 {
+			items = edited
 		}
+		w := c17CheckWritten(c, cs.Kind, orig, b, items, i)
 		if i == 0 {
 			saved1 = w
 		} else {
 			saved2 = w
 		}
-		c.Direct("non-data-fields-preserved", canon(c17NonData(w, cs.Kind)) == canon(c17NonData(orig, cs.Kind)),
-			map[string]any{"write": i, "got": c17NonData(w, cs.Kind), "want": c17NonData(orig, cs.Kind)})
-		items := loaded
-		if i == 1 {
-			items = edited
-		}
-		wm, _ := wireCont(w)
-		// binary items sit base64-encoded in the section the kind prescribes, text items as strings in theirs
-		wantB := map[string]any{}
-		for k, v := range items.Bin {
-			wantB[k] = scalarWire(base64.StdEncoding.EncodeToString(c17ToBytes(v)))
-		}
-		wantT := map[string]any{}
-		for k, v := range items.Str {
-			wantT[k] = scalarWire(v)
-		}
-		checkSec := func(key string, want map[string]any, clause string) {
-			got, present := wm[key]
-			if len(want) == 0 {
-				c.Direct(clause+"(absent-when-empty)", !present, got)
-				return
-			}
-			c.Direct(clause, present && canon(got) == canon(map[string]any{"m": want}), map[string]any{"got": got, "want": want})
-		}
-		checkSec(bk, wantB, "binary-section-is-base64-of-items")
-		checkSec(tk, wantT, "text-section-is-items")
 	}
 	// ---- model
 	mo := c.Model("manifest", map[string]any{"doc": orig, "edits": []c17Edit{}})
@@ -689,6 +803,251 @@ func c17EvalManifest(c *Ctx, raw []byte) {
 
 func c17WithO(it c17Items) map[string]any {
 	return map[string]any{"o": "ok", "str": it.Str, "bin": it.Bin, "strList": it.StrList, "binList": it.BinList}
+}
+
+// ------------------------------------------------------------------ several manifests alive at once
+
+// c17Live: one loaded manifest with the plain-map expectation of its items and its history so far.
+type c17Live struct {
+	p       c17Party
+	orig    W
+	m       k8s.Manifest
+	loaded  c17Items
+	wantStr map[string]string
+	wantBin map[string][]int
+	nEdits  int
+	pending []c17Edit        // edits since the last write
+	rounds  [][]c17Edit      // the edits of every completed round (a round ends with a write)
+	obs     []map[string]any // what the implementation showed in every completed round
+	dead    bool             // a load / write / reload failed (already reported): no further comparison
+}
+
+// c17LiveLoad builds the party's YAML body and loads it the way the party says.  nil: the load failed (reported).
+func c17LiveLoad(c *Ctx, p c17Party, dir string, seq int) *c17Live {
+	if p.Kind != "Secret" && p.Kind != "ConfigMap" {
+		return nil
+	}
+	l := &c17Live{p: p, wantStr: map[string]string{}, wantBin: map[string][]int{}, pending: []c17Edit{}}
+	body, err := yaml.Marshal(c17Root(p.Kind, p.Extra, p.Text, p.Bin, p.EmptySec))
+	if err != nil {
+		panic(err)
+	}
+	if l.orig, err = c17Decode(body); err != nil {
+		panic(err)
+	}
+	var loadErr error
+	out, txt := guard(func() {
+		switch p.Via {
+		case "reader":
+			l.m, loadErr = k8s.ManifestFromReader(bytes.NewReader(body))
+		case "file":
+			f := filepath.Join(dir, fmt.Sprintf("m-%d.yaml", seq))
+			if err := os.WriteFile(f, body, 0o644); err != nil {
+				panic(err)
+			}
+			l.m, loadErr = k8s.ManifestFromFile(f)
+			_ = os.Remove(f)
+		default:
+			l.m, loadErr = k8s.ManifestFromBytes(body)
+		}
+		if loadErr == nil && l.m != nil {
+			l.loaded = c17Observe(l.m)
+		}
+	})
+	if !c.Direct("no-panic(load)", out == "ok", txt) {
+		return nil
+	}
+	if !c.Direct("in-domain-manifest-loads", loadErr == nil && l.m != nil, fmt.Sprint(loadErr)) {
+		return nil
+	}
+	c17CheckLoaded(c, p.Text, p.Bin, l.loaded)
+	for k, v := range l.loaded.Str {
+		l.wantStr[k] = v
+	}
+	for k, v := range l.loaded.Bin {
+		l.wantBin[k] = v
+	}
+	return l
+}
+
+func (l *c17Live) edit(c *Ctx, e c17Edit) {
+	if e.B == nil {
+		e.B = []int{}
+	}
+	out, txt := guard(func() {
+		switch e.Op {
+		case "supdate":
+			l.m.StringData().Update(e.Key, e.S)
+			l.wantStr[e.Key] = e.S
+		case "sremove":
+			l.m.StringData().Remove(e.Key)
+			delete(l.wantStr, e.Key)
+		case "bupdate":
+			l.m.BinaryData().Update(e.Key, c17ToBytes(e.B))
+			l.wantBin[e.Key] = append([]int{}, e.B...)
+		case "bremove":
+			l.m.BinaryData().Remove(e.Key)
+			delete(l.wantBin, e.Key)
+		default:
+			return
+		}
+		l.pending = append(l.pending, e)
+		l.nEdits++
+	})
+	if !c.Direct("no-panic(manifest)", out == "ok", txt) {
+		l.dead = true
+	}
+}
+
+// inMemory: the manifest shows exactly its own expected items (whatever happened to other manifests meanwhile).
+func (l *c17Live) inMemory(c *Ctx, clause string, at any) c17Items {
+	var now c17Items
+	out, txt := guard(func() { now = c17Observe(l.m) })
+	if !c.Direct("no-panic(manifest)", out == "ok", txt) {
+		l.dead = true
+		return now
+	}
+	c.Direct(clause, canon(now.Str) == canon(l.wantStr) && canon(now.Bin) == canon(l.wantBin),
+		map[string]any{"manifest": l.p.ID, "at": at, "got": now, "wantStr": l.wantStr, "wantBin": l.wantBin})
+	return now
+}
+
+// write: WriteTo, reload what was written, compare with the manifest's own expectation; ends a round.
+func (l *c17Live) write(c *Ctx, at any) {
+	edited := l.inMemory(c, "facade-edits-observed-in-memory", at)
+	if l.dead {
+		return
+	}
+	var reloaded c17Items
+	var body []byte
+	ok := false
+	out, txt := guard(func() {
+		var buf bytes.Buffer
+		n, werr := l.m.WriteTo(&buf)
+		if !c.Direct("WriteTo-ok", werr == nil && int(n) == buf.Len(), fmt.Sprint(werr)) {
+			return
+		}
+		body = append([]byte{}, buf.Bytes()...)
+		m2, err2 := k8s.ManifestFromBytes(body)
+		if !c.Direct("written-manifest-reloads", err2 == nil && m2 != nil, map[string]any{"manifest": l.p.ID, "at": at, "err": fmt.Sprint(err2), "written": string(body)}) {
+			return
+		}
+		reloaded = c17Observe(m2)
+		ok = true
+	})
+	if !c.Direct("no-panic(manifest)", out == "ok", txt) || !ok {
+		l.dead = true
+		if body != nil {
+			c17CheckWritten(c, l.p.Kind, l.orig, body, edited, at)
+		}
+		return
+	}
+	clause := "reload-observes-exactly-the-edits"
+	if l.nEdits == 0 {
+		clause = "reload-has-same-item-maps"
+	}
+	c.Direct(clause, canon(reloaded.Str) == canon(l.wantStr) && canon(reloaded.Bin) == canon(l.wantBin),
+		map[string]any{"manifest": l.p.ID, "at": at, "reloaded": reloaded, "wantStr": l.wantStr, "wantBin": l.wantBin})
+	saved := c17CheckWritten(c, l.p.Kind, l.orig, body, edited, at)
+	l.rounds = append(l.rounds, l.pending)
+	l.pending = []c17Edit{}
+	l.obs = append(l.obs, map[string]any{"edited": edited, "saved": saved, "reload": c17WithO(reloaded)})
+}
+
+// model: the manifest's history alone (the model has no notion of other manifests) shows the same.
+func (l *c17Live) model(c *Ctx, fn string) {
+	if l.dead || len(l.rounds) == 0 {
+		return
+	}
+	mo := c.Model("manifestHist", map[string]any{"doc": l.orig, "rounds": l.rounds})
+	c.Corr(fn, map[string]any{"o": "ok", "loaded": l.loaded, "rounds": l.obs}, mo)
+}
+
+func c17EvalInter(c *Ctx, raw []byte) {
+	var cs c17Inter
+	if err := json.Unmarshal(raw, &cs); err != nil {
+		panic(err)
+	}
+	dir := c17WorkDir(c)
+	defer os.RemoveAll(dir)
+	parties := map[string]c17Party{}
+	for _, p := range cs.Ms {
+		if _, dup := parties[p.ID]; !dup {
+			parties[p.ID] = p
+		}
+	}
+	live := map[string]*c17Live{}
+	var order []*c17Live
+	kinds := map[string]bool{}
+	get := func(id string) *c17Live {
+		if l, seen := live[id]; seen {
+			return l
+		}
+		p, ok := parties[id]
+		if !ok {
+			return nil
+		}
+		l := c17LiveLoad(c, p, dir, len(live))
+		live[id] = l
+		if l != nil {
+			order = append(order, l)
+			kinds[p.Kind] = true
+		}
+		return l
+	}
+	alive := func() (n, items int) {
+		for _, l := range order {
+			if !l.dead {
+				n++
+				items += len(l.wantStr) + len(l.wantBin) + len(l.p.Text) + len(l.p.Bin)
+			}
+		}
+		return
+	}
+	others := func(at any) {
+		for _, l := range order {
+			if !l.dead {
+				l.inMemory(c, "alive-manifests-keep-their-own-items", at)
+			}
+		}
+	}
+	write := func(l *c17Live, at any) {
+		if n, items := alive(); n >= 2 && items > 0 {
+			c.Nontrivial()
+		}
+		l.write(c, at)
+	}
+	for i, st := range cs.Steps {
+		l := get(st.M)
+		if l == nil || l.dead {
+			continue
+		}
+		c.Dist("inter-step:" + st.Op)
+		switch st.Op {
+		case "load":
+		case "write":
+			write(l, i)
+		default:
+			l.edit(c, c17Edit{Op: st.Op, Key: st.Key, S: st.S, B: st.B})
+		}
+		others(i)
+	}
+	// finally every manifest is (loaded and) written and reloaded, all of them still alive
+	for _, p := range cs.Ms {
+		if l := get(p.ID); l != nil && !l.dead && l.p.ID == p.ID {
+			write(l, "end:"+p.ID)
+			others("end:" + p.ID)
+		}
+	}
+	c.Dist(fmt.Sprintf("inter-manifests:%d", len(order)))
+	if len(kinds) > 1 {
+		c.Dist("inter-kinds:mixed")
+	} else {
+		c.Dist("inter-kinds:same")
+	}
+	for _, l := range order {
+		l.model(c, "interleaved-history")
+	}
 }
 
 func c17EvalMalformed(c *Ctx, raw []byte) {
@@ -829,15 +1188,39 @@ func c17EvalEmbedded(c *Ctx, raw []byte) {
 	if cs.Kind != "Secret" && cs.Kind != "ConfigMap" {
 		return
 	}
-	if len(cs.Edits) > 0 {
+	rounds := [][]domEdit{cs.Edits}
+	for _, es := range cs.More {
+		if es == nil {
+			es = []domEdit{}
+		}
+		rounds = append(rounds, es)
+	}
+	if rounds[0] == nil {
+		rounds[0] = []domEdit{}
+	}
+	nEdits := 0
+	for _, es := range rounds {
+		nEdits += len(es)
+	}
+	if nEdits > 0 {
 		c.Nontrivial()
 	}
 	c.Dist("mode:" + cs.Mode)
 	c.Dist("via:" + cs.Via)
+	c.Dist(fmt.Sprintf("saves-through-one-handle:%d", len(rounds)))
 	dir := c17WorkDir(c)
 	defer os.RemoveAll(dir)
 	file := filepath.Join(dir, "e.yaml")
 	_ = os.Remove(file)
+
+	// another manifest, loaded first and alive during the whole history
+	var by *c17Live
+	if cs.By != nil {
+		c.Dist("bystander:" + map[bool]string{true: "same-kind", false: "other-kind"}[cs.By.Kind == cs.Kind])
+		if by = c17LiveLoad(c, *cs.By, dir, 0); by == nil {
+			return
+		}
+	}
 
 	text := append([]c17Item{}, cs.Text...)
 	table := []any{}
@@ -848,26 +1231,30 @@ func c17EvalEmbedded(c *Ctx, raw []byte) {
 	var d k8s.Document
 	var err error
 	out, txt := guard(func() {
+		b := k8s.NewBuilder().Manifest(file)
+		switch cs.Mode {
+		case "yaml":
+			b = b.Decoder(k8s.DecodeEmbeddedDoc(cs.Item, dom.DefaultYamlDecoder)).Encoder(k8s.EncodeEmbeddedDoc(cs.Item, dom.DefaultYamlEncoder))
+		case "json":
+			b = b.Decoder(k8s.DecodeEmbeddedDoc(cs.Item, dom.DefaultJsonDecoder)).Encoder(k8s.EncodeEmbeddedDoc(cs.Item, dom.DefaultJsonEncoder))
+		default:
+			b = b.Decoder(k8s.DecodeEmbeddedProps()).Encoder(k8s.EncodeEmbeddedProps())
+		}
 		if cs.Via == "create" {
-			b := k8s.NewBuilder().Manifest(file)
-			switch cs.Mode {
-			case "yaml":
-				b = b.Decoder(k8s.DecodeEmbeddedDoc(cs.Item, dom.DefaultYamlDecoder)).Encoder(k8s.EncodeEmbeddedDoc(cs.Item, dom.DefaultYamlEncoder))
-			case "json":
-				b = b.Decoder(k8s.DecodeEmbeddedDoc(cs.Item, dom.DefaultJsonDecoder)).Encoder(k8s.EncodeEmbeddedDoc(cs.Item, dom.DefaultJsonEncoder))
-			default:
-				b = b.Decoder(k8s.DecodeEmbeddedProps()).Encoder(k8s.EncodeEmbeddedProps())
-			}
 			d, err = b.Create(cs.Kind, "nm", k8s.WithNamespace("ns1"))
+			return
+		}
+		root := c17Root(cs.Kind, cs.Extra, text, cs.Bin, false)
+		body, merr := yaml.Marshal(root)
+		if merr != nil {
+			panic(merr)
+		}
+		if werr := os.WriteFile(file, body, 0o644); werr != nil {
+			panic(werr)
+		}
+		if cs.Via == "builder" {
+			d, err = b.Open()
 		} else {
-			root := c17Root(cs.Kind, cs.Extra, text, cs.Bin, false)
-			body, merr := yaml.Marshal(root)
-			if merr != nil {
-				panic(merr)
-			}
-			if werr := os.WriteFile(file, body, 0o644); werr != nil {
-				panic(werr)
-			}
 			d, err = c17Open(cs.Mode, file, cs.Item)
 		}
 	})
@@ -893,88 +1280,121 @@ func c17EvalEmbedded(c *Ctx, raw []byte) {
 		panic(merr)
 	}
 	before := c17Observe(m0)
+	if by != nil {
+		by.inMemory(c, "alive-manifests-keep-their-own-items", "open")
+	}
 
-	var doc0, editedW, doc2 W
-	var after c17Items
-	var file2 W
-	var editedFlat map[string]string
-	var equalsBack bool
-	var saveErr, reopenErr error
+	var doc0 W
 	out, txt = guard(func() {
 		doc0 = nodeWire(d.Document())
 		if cs.Mode != "props" {
 			table = append(table, map[string]any{"doc": doc0, "text": c17Serialize(d.Document(), cs.Mode)})
-			if cs.Doc != nil && cs.Via != "create" {
-				c.Direct("embedded-document-opens-as-stored", canon(doc0) == canon(nodeWire(wireContainer(cs.Doc))), map[string]any{"got": doc0})
-			}
-		}
-		for _, e := range cs.Edits {
-			c.Dist("docedit:" + e.Op)
-			applyDomEdit(d.Document(), e)
-		}
-		editedW = nodeWire(d.Document())
-		editedFlat = c17Stringified(d.Document())
-		if cs.Mode != "props" {
-			table = append(table, map[string]any{"doc": editedW, "text": c17Serialize(d.Document(), cs.Mode)})
-		}
-		saveErr = d.Save()
-		if saveErr != nil {
-			return
-		}
-		d2, e2 := c17Open(cs.Mode, file, cs.Item)
-		reopenErr = e2
-		if e2 != nil {
-			return
-		}
-		doc2 = nodeWire(d2.Document())
-		equalsBack = d2.Document().Equals(d.Document()) && d.Document().Equals(d2.Document())
-		m2, e3 := k8s.ManifestFromFile(file)
-		if e3 != nil {
-			panic(e3)
-		}
-		after = c17Observe(m2)
-		b2, _ := os.ReadFile(file)
-		file2, _ = c17Decode(b2)
-		if cs.Mode == "props" {
-			// a properties file holds leaves only: a document with an empty container / list somewhere is
-			// not representable (its flattening forgets it), so the equality is asked of the others
-			if c17FlattenLossless(editedW, true) {
-				c.Dist("props:representable")
-				c.Direct("reopened-properties==edited-document(flattened,%v)", canon(c17Stringified(d2.Document())) == canon(editedFlat),
-					map[string]any{"reopened": c17Stringified(d2.Document()), "edited": editedFlat})
-			} else {
-				c.Dist("props:has-empty-composite")
-			}
 		}
 	})
 	if !c.Direct("no-panic(edit-save-reopen)", out == "ok", txt) {
 		return
 	}
-	if !c.Direct("Save-ok", saveErr == nil, fmt.Sprint(saveErr)) || !c.Direct("reopen-ok", reopenErr == nil, fmt.Sprint(reopenErr)) {
+	if cs.Mode != "props" && cs.Doc != nil && cs.Via != "create" {
+		c.Direct("embedded-document-opens-as-stored", canon(doc0) == canon(nodeWire(wireContainer(cs.Doc))), map[string]any{"got": doc0})
+	}
+
+	// ---- the history: every round edits and saves through the SAME handle d, then a fresh handle reopens the file
+	prev := before
+	implRounds := []map[string]any{}
+	complete := true
+	for ri, edits := range rounds {
+		var editedW, doc2, file2 W
+		var after c17Items
+		var editedFlat, reopenedFlat map[string]string
+		var equalsBack bool
+		var saveErr, reopenErr, reloadErr error
+		out, txt = guard(func() {
+			for _, e := range edits {
+				c.Dist("docedit:" + e.Op)
+				applyDomEdit(d.Document(), e)
+			}
+			editedW = nodeWire(d.Document())
+			editedFlat = c17Stringified(d.Document())
+			if cs.Mode != "props" {
+				table = append(table, map[string]any{"doc": editedW, "text": c17Serialize(d.Document(), cs.Mode)})
+			}
+			saveErr = d.Save()
+			if saveErr != nil {
+				return
+			}
+			d2, e2 := c17Open(cs.Mode, file, cs.Item)
+			reopenErr = e2
+			if e2 != nil {
+				return
+			}
+			doc2 = nodeWire(d2.Document())
+			reopenedFlat = c17Stringified(d2.Document())
+			equalsBack = d2.Document().Equals(d.Document()) && d.Document().Equals(d2.Document())
+			m2, e3 := k8s.ManifestFromFile(file)
+			reloadErr = e3
+			if e3 != nil {
+				return
+			}
+			after = c17Observe(m2)
+			b2, _ := os.ReadFile(file)
+			file2, _ = c17Decode(b2)
+		})
+		at := map[string]any{"save": ri + 1}
+		if !c.Direct("no-panic(edit-save-reopen)", out == "ok", map[string]any{"at": at, "panic": txt}) {
+			return
+		}
+		if !c.Direct("Save-ok", saveErr == nil, map[string]any{"at": at, "err": fmt.Sprint(saveErr)}) ||
+			!c.Direct("reopen-ok", reopenErr == nil, map[string]any{"at": at, "err": fmt.Sprint(reopenErr)}) ||
+			!c.Direct("saved-manifest-reloads", reloadErr == nil, map[string]any{"at": at, "err": fmt.Sprint(reloadErr)}) {
+			complete = false
+			break
+		}
+		if cs.Mode == "props" {
+			// a properties file holds leaves only: a document with an empty container / list somewhere is
+			// not representable (its flattening forgets it), so the equality is asked of the others
+			if c17FlattenLossless(editedW, true) {
+				c.Dist("props:representable")
+				c.Direct("reopened-properties==edited-document(flattened,%v)", canon(reopenedFlat) == canon(editedFlat),
+					map[string]any{"at": at, "reopened": reopenedFlat, "edited": editedFlat})
+			} else {
+				c.Dist("props:has-empty-composite")
+			}
+			c.Direct("string-data==flattened-document-exactly", canon(after.Str) == canon(editedFlat), map[string]any{"at": at, "items": after.Str, "flattened": editedFlat})
+		} else {
+			c.Direct("reopened==edited-document", canon(doc2) == canon(editedW), map[string]any{"at": at, "reopened": doc2, "edited": editedW})
+			c.Direct("reopened.Equals(edited)", equalsBack, at)
+			// other string items untouched
+			for k, v := range prev.Str {
+				if k == cs.Item {
+					continue
+				}
+				got, ok := after.Str[k]
+				c.Direct("other-items-unchanged", ok && got == v, map[string]any{"at": at, "key": k, "got": got, "want": v})
+			}
+			for k := range after.Str {
+				_, ok := prev.Str[k]
+				c.Direct("no-item-invented", ok || k == cs.Item, map[string]any{"at": at, "key": k})
+			}
+		}
+		c.Direct("binary-items-unchanged", canon(after.Bin) == canon(prev.Bin), map[string]any{"at": at, "before": prev.Bin, "after": after.Bin})
+		c.Direct("non-data-fields-preserved", canon(c17NonData(file2, cs.Kind)) == canon(c17NonData(file0, cs.Kind)), map[string]any{"at": at, "got": c17NonData(file2, cs.Kind)})
+		re := c17WithO(after)
+		re["doc"] = doc2
+		implRounds = append(implRounds, map[string]any{"edited": editedW, "save": "ok", "file": file2, "reopen": re})
+		prev = after
+		// the other manifest is untouched by all this, and what it writes is its own
+		if by != nil && !by.dead {
+			by.write(c, at)
+		}
+	}
+	if by != nil {
+		by.model(c, "bystander-history")
+	}
+	if !complete {
 		return
 	}
-	if cs.Mode == "props" {
-		c.Direct("string-data==flattened-document-exactly", canon(after.Str) == canon(editedFlat), map[string]any{"items": after.Str, "flattened": editedFlat})
-	} else {
-		c.Direct("reopened==edited-document", canon(doc2) == canon(editedW), map[string]any{"reopened": doc2, "edited": editedW})
-		c.Direct("reopened.Equals(edited)", equalsBack, nil)
-		// other string items untouched
-		for k, v := range before.Str {
-			if k == cs.Item {
-				continue
-			}
-			got, ok := after.Str[k]
-			c.Direct("other-items-unchanged", ok && got == v, map[string]any{"key": k, "got": got, "want": v})
-		}
-		for k := range after.Str {
-			_, ok := before.Str[k]
-			c.Direct("no-item-invented", ok || k == cs.Item, k)
-		}
-	}
-	c.Direct("binary-items-unchanged", canon(after.Bin) == canon(before.Bin), map[string]any{"before": before.Bin, "after": after.Bin})
-	c.Direct("non-data-fields-preserved", canon(c17NonData(file2, cs.Kind)) == canon(c17NonData(file0, cs.Kind)), map[string]any{"got": c17NonData(file2, cs.Kind)})
 	// ---- model
-	mo := c.Model("embedded", map[string]any{"file": file0, "mode": cs.Mode, "item": cs.Item, "table": table, "edits": cs.Edits})
+	mo := c.Model("embedded", map[string]any{"file": file0, "mode": cs.Mode, "item": cs.Item, "table": table, "rounds": rounds})
 	mm, _ := mo.(map[string]any)
 	if mm == nil {
 		c.Corr("embedded", "object", mo)
@@ -982,11 +1402,20 @@ func c17EvalEmbedded(c *Ctx, raw []byte) {
 	}
 	c.Corr("embedded.open", "ok", mm["o"])
 	c.Corr("embedded.doc0", doc0, mm["doc0"])
-	c.Corr("embedded.edited", editedW, mm["edited"])
-	c.Corr("embedded.save", "ok", mm["save"])
 	c.Corr("embedded.before", before, mm["before"])
-	c.Corr("embedded.file", file2, mm["file"])
-	re := c17WithO(after)
-	re["doc"] = doc2
-	c.Corr("embedded.reopen", re, mm["reopen"])
+	mr, _ := mm["rounds"].([]any)
+	if !c.Corr("embedded.rounds", len(implRounds), len(mr)) {
+		return
+	}
+	for i, ir := range implRounds {
+		r, _ := mr[i].(map[string]any)
+		if r == nil {
+			c.Corr("embedded.round", "object", mr[i])
+			continue
+		}
+		c.Corr("embedded.edited", ir["edited"], r["edited"])
+		c.Corr("embedded.save", ir["save"], r["save"])
+		c.Corr("embedded.file", ir["file"], r["file"])
+		c.Corr("embedded.reopen", ir["reopen"], r["reopen"])
+	}
 }
